@@ -1,8 +1,11 @@
 (** C12 — finite check of the degenerate-codon specification, include_stop = False
-    (split over two files so that they build in parallel; every code x 15^3 codons of IUPAC symbols). *)
+    (split over two files so that they build in parallel). *)
 From CG3 Require Import Lib.PyZ Lib.Val Model.GeneticCode Spec.GeneticCodeSpec Proofs.GeneticCodeProofs
   Proofs.GeneticCodeDegenDefs.
 From CG3gen Require Import GCTables.
 
 Lemma degenerate_checked_false : forallb (degenerate_check false) new_codes = true.
+Proof. vm_cast_no_check (eq_refl true). Qed.
+
+Lemma degenerate_first_code_checked_false : degenerate_check_on (product3 iupac_syms) false first_code = true.
 Proof. vm_cast_no_check (eq_refl true). Qed.
